@@ -11,7 +11,7 @@ from .core import PyExc, Unsupported, PathPruned, sub_explore
 from .expr import Frame, GenV
 from .ops import conc_bool, conc_int, as_int_term, is_num, mk
 from .stmt import BUILTIN_EXC
-from .values import (RefV, BoolV, IntV, RealV, StrV, NoneV, NONE, TupleV, ListV, SeqV, SetV, DictV, ObjV,
+from .values import (RecurV, RefV, BoolV, IntV, RealV, StrV, NoneV, NONE, TupleV, ListV, SeqV, SetV, DictV, ObjV,
                      ClassV, FuncV, BoundV, BuiltinV, ModuleV, RangeV, SuperV, V)
 
 BUILTIN_NAMES = {
@@ -56,7 +56,12 @@ class CallMixin:
             result.module = module
         elif name in mod.consts:
             frame = Frame({}, module)
-            result = self.eval(mod.consts[name], frame)
+            try:
+                result = self.eval(mod.consts[name], frame)
+            except (Unsupported, PyExc):
+                if not module.startswith("sidecar:"):
+                    raise
+                result = None
         elif name in mod.aliases:
             orig = mod.aliases[name]
             target_module, level = mod.alias_modules[name]
@@ -108,6 +113,11 @@ class CallMixin:
             result = {"True": BoolV(True), "False": BoolV(False), "None": NONE}[name]
         elif name == "__name__":
             result = StrV(s=module)
+        if module.startswith("sidecar:") and (result is None or name in mod.consts):
+            import importlib
+            pyobj = getattr(importlib.import_module(module.split(":", 1)[1]), name, None)
+            if isinstance(pyobj, dsl.Recurrence):
+                result = RecurV(pyobj)
         if result is None:
             if module.startswith("sidecar:"):
                 # dsl type descriptors etc. referenced from specs are not values of the verified world
@@ -274,6 +284,83 @@ class CallMixin:
         value = z3.Function(fname, sort, et.sort)(term)
         return self.unpack(value, et)
 
+    # ---- ghost recurrences -------------------------------------------------------------------------------------
+    def recurrence_value(self, rec: Any, key: tuple, index: Any) -> V:
+        """The value R(index) as an application of the uninterpreted function(s) of this instance."""
+        desc = rec.returns
+        if isinstance(desc, dsl.SeqOf):
+            et = self.elem_type(desc.elem)
+            farr = z3.Function(f"ghost:{rec.name}:{key}[]", z3.IntSort(), z3.ArraySort(z3.IntSort(), et.sort))
+            flen = z3.Function(f"ghost:{rec.name}:{key}.len", z3.IntSort(), z3.IntSort())
+            return SeqV(farr(index), flen(index), et)
+        et = self.elem_type(desc)
+        fn = z3.Function(f"ghost:{rec.name}:{key}", z3.IntSort(), et.sort)
+        if et.kind in ("int", "bool", "real", "str"):
+            return self.unpack(fn(index), et)
+        raise Unsupported(f"recurrence {rec.name} of type {desc!r}")
+
+    def values_equal(self, a: V, b: V) -> Any:
+        if isinstance(a, SeqV) or isinstance(b, SeqV):
+            if isinstance(a, ListV):
+                a = self.seq_from_list(a.items, b.et) if a.items else SeqV(b.arr, z3.IntVal(0), b.et, b.off)
+            if isinstance(b, ListV):
+                b = self.seq_from_list(b.items, a.et) if b.items else SeqV(a.arr, z3.IntVal(0), a.et, a.off)
+            if not (isinstance(a.off, int) and a.off == 0 and isinstance(b.off, int) and b.off == 0):
+                raise Unsupported("equality of sequence views")
+            if a.arr.sort() != b.arr.sort():
+                raise Unsupported("equality of sequences with different element encodings")
+            # equal as lists: same length, same elements below the length
+            i = z3.Int(self.ctx.fresh_name("q"))
+            return z3.And(a.n == b.n, z3.Or(a.arr == b.arr,
+                                            z3.ForAll([i], z3.Implies(z3.And(0 <= i, i < a.n),
+                                                                      z3.Select(a.arr, i) == z3.Select(b.arr, i)))))
+        t = self.eq(a, b)
+        return t if not isinstance(t, bool) else z3.BoolVal(t)
+
+    def call_recurrence(self, rec: Any, args: list[V], line: int) -> V:
+        ctx = self.ctx
+        index = as_int_term(args[0])
+        params = args[1:]
+        terms = []
+        for p in params:
+            if isinstance(p, (IntV, BoolV)):
+                terms.append(str(z3.simplify(as_int_term(p)).sexpr()) if isinstance(p, IntV) else str(p.t.sexpr()))
+            elif isinstance(p, StrV):
+                terms.append(str(ctx.str_term(p).sexpr()))
+            elif isinstance(p, NoneV):
+                terms.append("None")
+            elif isinstance(p, RealV):
+                terms.append(str(p.t.sexpr()))
+            else:
+                raise Unsupported(f"recurrence {rec.name}: parameter of unsupported kind {p!r}")
+        key = tuple(terms)
+        init_fv = self.sidecar_function(rec.init)
+        step_fv = self.sidecar_function(rec.step)
+        done = ctx.recur_done.setdefault((rec.name, key), set())
+        value = self.recurrence_value(rec, key, z3.simplify(index))
+        pending = []
+        if "init" not in done:
+            done.add("init")
+            pending.append(("init", None))
+        for j in (z3.simplify(index - 1), z3.simplify(index)):
+            tag = str(j.sexpr())
+            if tag not in done:
+                done.add(tag)
+                pending.append(("step", j))
+        for kind, j in pending:
+            if kind == "init":
+                first = self.pure_call(init_fv, list(params))
+                ctx.ghost_axioms.append(self.values_equal(self.recurrence_value(rec, key, z3.IntVal(0)), first))
+            else:
+                cj = conc_int(IntV(j))
+                if cj is not None and cj < 0:
+                    continue
+                prev = self.recurrence_value(rec, key, j)
+                nxt = self.pure_call(step_fv, [prev, IntV(j)] + list(params))
+                fact = self.values_equal(self.recurrence_value(rec, key, z3.simplify(j + 1)), nxt)
+                ctx.ghost_axioms.append(z3.Implies(j >= 0, fact))
+        return value
+
     def call_external(self, ext: Any, label: str, args: list[V], line: int) -> V:
         ctx = self.ctx
         ctx.assumptions_used.add(f"assumed contract of external callee {label}: may raise {ext.raises or 'nothing'}, "
@@ -393,6 +480,8 @@ class CallMixin:
             return self.call_method_builtin(func.obj, func.func, args, kwargs, line)
         if isinstance(func, ClassV):
             return self.construct(func, args, kwargs, line)
+        if isinstance(func, RecurV):
+            return self.call_recurrence(func.rec, args, line)
         raise Unsupported(f"call of {func!r} (line {line})")
 
     def bind(self, fv: FuncV, args: list[V], kwargs: dict[str, V], line: int) -> dict[str, V]:
